@@ -54,7 +54,7 @@ def schemas_for(t, work):
         n = 6 if t == "quick" else 40
         gd = os.path.join(work, "gen")
         os.makedirs(gd, exist_ok=True)
-        for i, (xml, _model) in enumerate(schemagen.sample_schemas(n, common.seed() * 1000 + 20)):
+        for i, (xml, _model) in enumerate(schemagen.sample_schemas(n, common.seed() * 1000 + 20, allow_include=False)):
             p = os.path.join(gd, "gen%03d.xml" % i)
             with open(p, "w") as f:
                 f.write(xml)
